@@ -412,3 +412,7 @@ pub enum SignedPacketVerifyError {
     #[error("Invalid public key")]
     InvalidKey { source: iroh_base::KeyParsingError },
 }
+
+#[cfg(kani)]
+#[path = "/verif/kani/iroh_dns/pkarr.rs"]
+mod verif_kani;
